@@ -34,7 +34,7 @@ FAMILIES = {
             "thorough": [mc("MCData", "2 vBuckets, 2 savers, <=2 saves, <=2 acks, 1 crash, store may fail", 5000)],
         },
         "simulate": {"quick": [sim("SimData", 150, 40)], "thorough": [sim("SimData", 2500, 48)]},
-        "scenarios": [scen("ReplayData", "data.ndjson")],
+        "scenarios": [scen("ReplayData", "data.ndjson"), scen("WitReplayData", "wit_data.ndjson")],
     },
     # Core.tla, the server generates every event sequence: snapshot layouts, kinds, key classes, old events,
     # events outside their snapshot, rollback on open, crash + resume mid-snapshot
@@ -45,7 +45,7 @@ FAMILIES = {
             "thorough": [mc("MCGen", "1 vBucket, seqnos <=3, all kinds x key classes x old, bad events, rollback, 1 crash", 5000)],
         },
         "simulate": {"quick": [sim("SimGen", 150, 36)], "thorough": [sim("SimGen", 2500, 44), sim("SimGen2", 1200, 44)]},
-        "scenarios": [],
+        "scenarios": [scen("WitReplayGen", "gen.ndjson"), scen("WitReplayGen", "wit_gen.ndjson")],
     },
     # Core.tla, lifecycle: notifications from bus / API / timer, close, re-open, stream ends, Close()
     "life": {
@@ -55,22 +55,34 @@ FAMILIES = {
             "thorough": [mc("MCLife", "2 vBuckets, <=2 notifications (bus+api), 2 ends, Close(), 1 save, 1 ack", 5000)],
         },
         "simulate": {"quick": [sim("SimLife", 60, 45, isolate=True)], "thorough": [sim("SimLife", 800, 55, isolate=True)]},
-        "scenarios": [scen("ReplayLife", "life.ndjson", isolate=True), scen("ReplayLifeGaps", "life_gaps.ndjson", isolate=True, gaps=True)],
+        "scenarios": [scen("ReplayLife", "life.ndjson", isolate=True), scen("ReplayLifeGaps", "life_gaps.ndjson", isolate=True, gaps=True),
+                      scen("WitReplayLife", "wit_life.ndjson", isolate=True)],
     },
     # Core.tla, start-up faults: failing load / seqno / failover-log queries, failing stream open, checkpoint ahead
     "fault": {
         "driver": "core", "monitor": "MonTrace",
         "exhaustive": {
-            "quick": [mc("MCFaultLatestQ", "2 vBuckets, auto-reset latest, <=2 injected failures / flushes, 1 crash")],
-            "thorough": [mc("MCFaultLatestQ", "latest"), mc("MCFaultQ", "2 vBuckets, auto-reset earliest, <=2 injected failures / flushes, 1 crash", 5000)],
+            "quick": [mc("MCFaultLatestQ", "2 vBuckets, auto-reset latest, <=1 injected failure / flush, 1 crash")],
+            "thorough": [mc("MCFaultLatest", "2 vBuckets, auto-reset latest, <=2 injected failures / flushes, 1 crash", 5000),
+                         mc("MCFault", "2 vBuckets, auto-reset earliest, <=2 injected failures / flushes, 1 crash", 5000)],
         },
         "simulate": {"quick": [sim("SimFault", 60, 40, isolate=True), sim("SimFaultLatest", 40, 40, isolate=True)],
                      "thorough": [sim("SimFault", 600, 48, isolate=True), sim("SimFaultLatest", 400, 48, isolate=True)]},
-        "scenarios": [],
+        "scenarios": [scen("WitReplayFault", "wit_fault.ndjson", isolate=True), scen("WitReplayFaultLatest", "wit_faultlatest.ndjson", isolate=True)],
     },
 }
 
+FAMILIES["mode"] = {
+    # Core.tla, finite mode + auto-reset latest on a bucket that already holds data: requested positions and ends, clean ends, natural stop
+    "driver": "core", "monitor": "MonTrace",
+    "exhaustive": {"quick": [mc("MCModeQ", "2 vBuckets with history, finite mode, auto-reset latest, 2 clean ends, Close(), 1 crash")],
+                   "thorough": [mc("MCModeQ", "2 vBuckets with history, finite mode, auto-reset latest, 2 clean ends, Close(), 1 crash")]},
+    "simulate": {"quick": [sim("SimMode", 50, 44, isolate=True)], "thorough": [sim("SimMode", 500, 44, isolate=True)]},
+    "scenarios": [],
+}
+
 PROPS = {
+    "C02": {"families": ["mode", "fault", "data"]},
     "C01": {"families": ["data", "gen"]},
     "C03": {"families": ["gen", "life"]},
     "C04": {"families": ["data", "gen", "life"]},
@@ -78,7 +90,7 @@ PROPS = {
     "C06": {"families": ["gen", "data"]},
     "C08": {"families": ["gen"]},
     "C11": {"families": ["life"]},
-    "C12": {"families": ["life"]},
+    "C12": {"families": ["life", "mode"]},
     "C13": {"families": ["life"]},
     "C14": {"families": ["gen"]},
     "C15": {"families": ["fault"]},
